@@ -215,3 +215,48 @@ def depth_docs(rng):
             docs.append(nested(seq[:-1] + '{', b'"a":1', close=False))
             docs.append(nested(seq[:-1] + '[', b'1,2', close=False))
     return docs
+
+
+def escape_docs():
+    """\\uXXXX escapes at every UTF-8 length boundary and surrogate boundary (both hex cases), as string value, inside text, as object key
+    and inside an array: the encoder of escaped code points (push_wtf8_codepoint) and the surrogate arithmetic have one-code-point
+    off-by-one failure modes that no random document meets"""
+    cps = [0x0000, 0x001f, 0x0020, 0x007e, 0x007f, 0x0080, 0x0081, 0x07fe, 0x07ff, 0x0800, 0x0801, 0x0fff, 0x1000, 0xd7ff, 0xe000, 0xfffd, 0xfffe, 0xffff]
+    pairs = [(0xd800, 0xdc00), (0xd800, 0xdfff), (0xdbff, 0xdc00), (0xdbff, 0xdfff), (0xd83d, 0xde00), (0xd7ff, 0xdc00), (0xd800, 0xe000), (0xdc00, 0xd800)]
+    lits = []
+    for cp in cps:
+        for fmt in ('\\u%04x', '\\u%04X'):
+            lits.append((fmt % cp).encode())
+    for cp in (0xd800, 0xd801, 0xdbfe, 0xdbff, 0xdc00, 0xdc01, 0xdffe, 0xdfff):      # lone surrogates (every one must be rejected in text mode)
+        lits.append(('\\u%04x' % cp).encode())
+        lits.append(('\\u%04X' % cp).encode())
+    for a, b in pairs:
+        lits.append(('\\u%04x\\u%04x' % (a, b)).encode())
+        lits.append(('\\u%04X\\u%04X' % (a, b)).encode())
+    docs = []
+    for e in lits:
+        for pre, post in ((b'', b''), (b'a', b''), (b'', b'z'), (b'\xc3\xa9', b'\xe2\x82\xac'), (b'\\n', b'\\\\')):
+            s = b'"' + pre + e + post + b'"'
+            docs += [s, b'[' + s + b',1]', b'{' + s + b':' + s + b'}', b' ' + s + b' ']
+    return docs
+
+
+def big_dup_objects(rng, n=40):
+    """objects with MANY members (33..300) in which keys repeat: 'last duplicate wins' and the iteration order must not depend on the size of the
+    object (a sort / bulk-load shortcut behaves differently beyond small sizes)"""
+    docs = []
+    for i in range(n):
+        nkeys = rng.choice([17, 20, 33, 40, 64, 100, 150])
+        keys = ['k%02d' % j for j in range(nkeys)]
+        members = []
+        for rep in range(rng.choice([2, 2, 3])):
+            ks = keys[:]
+            if rng.random() < 0.6:
+                rng.shuffle(ks)
+            if rep > 0 and rng.random() < 0.5:
+                ks = ks[:rng.randrange(1, len(ks))]
+            members += [(k, rep * 1000 + j) for j, k in enumerate(ks)]
+        if rng.random() < 0.3:
+            rng.shuffle(members)
+        docs.append(('{' + ','.join('"%s":%d' % m for m in members) + '}').encode())
+    return docs
